@@ -56,7 +56,7 @@ def run(ctx):
                 # moved out (e.g. into the returned stream)?  then the slot must be empty in what remains
                 if RM.slot_at_end(g, p, RM.wslot) != ("none",) and not absint.contains(absint.deep(p.state, p.ret()), RR.WRITER):
                     bad_slot.append("slot not emptied")
-            pr = RM.prints(p)
+            pr = RM.final_prints(p)
             if name in ("respond", "upgrade"):
                 if len(pr) != 1:
                     bad_print.append("%d responses printed" % len(pr))
@@ -129,7 +129,7 @@ def run(ctx):
     ctx.touch(f, paths=len(ps))
     bad, early = [], []
     for p in ps:
-        pr = RM.prints(p)
+        pr = RM.final_prints(p)
         if len(pr) != 1:
             bad.append("%d responses printed" % len(pr))
             continue
@@ -141,8 +141,10 @@ def run(ctx):
         if RM.slot_at_end(g, p, RM.wslot) != ("none",):
             bad.append("slot still occupied after the automatic answer")
         for j, ev in enumerate(p.events[:i]):
+            if ev[1] == "call" and (re.search(RR.RAW_PRINT, ev[2]) or ((ev[6] or "").startswith("std::io::Write::") and RM.arg_mentions(p, ev, 0, RR.WRITER))):
+                continue        # writing into the request's own writer (an interim response) is not waiting for the client's body
             if ev[1] in ("call", "drop") and not f.blocks[ev[0]].get("synthetic"):
-                eff = facts.effects_at(f, ev[0]) & {"BLOCK-IO", "WAIT-TURN-R", "CV-WAIT", "SLEEP"}
+                eff = facts.effects_at(f, ev[0], creator=False) & {"BLOCK-IO", "WAIT-TURN-R", "CV-WAIT", "SLEEP"}
                 if eff:
                     early.append((f.loc(ev[0]), sorted(eff)))
             if ev[1] == "drop" and absint.contains(ev[4], RR.READER):
@@ -173,10 +175,13 @@ def run(ctx):
     for g2, bb2, t2 in facts.all_calls(lambda t: call_matches(t, RR.RAW_PRINT)):
         if g2.id.startswith("test::") or g2.file.endswith("response.rs"):
             continue
+        sc = {x[1] for x in origin_walk(g2.origin(t2["args"][0])) if x[0] == "const" and isinstance(x[1], int) and not isinstance(x[1], bool) and 100 <= x[1] <= 599}
+        if sc and all(c <= 199 for c in sc):
+            continue        # an interim response (100 Continue) is not an answer; where it may be sent is C18's subject
         n += 1
         ctx.ob("C06.7", "prints-a-response|%s" % g2.id, "the library prints a response only in the connection parser's error arms, respond, upgrade, as_reader and the Request's destructor (never while building a request or elsewhere)",
                (g2.id, bb2) in allowed, g2.loc(bb2))
-    ctx.floor("C06.7 sites printing a response", n, 5)
+    ctx.floor("C06.7 sites printing a final response", n, 4)
     return {}
 
 
